@@ -463,6 +463,15 @@ var tcLines = [][2]string{
 	{"8/P7/8/8/8/8/7p/k6K w - - 0 1", "a7a8q h2h1q"},
 	{"1n5k/P7/8/8/8/8/8/K7 w - - 0 1", "a7b8r"},
 	{"1n5k/P7/8/8/8/8/8/K7 w - - 0 1", "a7b8q h8g7"},
+	// one diagram, two histories: castled / walked there by hand (both colours, both wings)
+	{"r3k2r/p6p/8/8/8/8/P6P/R3K2R w KQkq - 0 1", "e1g1 a7a6 g1h1 a6a5 h1g1 a5a4"},
+	{"r3k2r/p6p/8/8/8/8/P6P/R3K2R w KQkq - 0 1", "h1f1 a7a6 e1f2 a6a5 f2g1 a5a4"},
+	{"r3k2r/p6p/8/8/8/8/P6P/R3K2R w KQkq - 0 1", "e1c1 h7h6 c1b1 h6h5 b1c1 h5h4"},
+	{"r3k2r/p6p/8/8/8/8/P6P/R3K2R w KQkq - 0 1", "a1d1 h7h6 e1d2 h6h5 d2c1 h5h4"},
+	{"r3k2r/p6p/8/8/8/8/P6P/R3K2R b KQkq - 0 1", "e8g8 a2a3 g8h8 a3a4 h8g8 a4a5"},
+	{"r3k2r/p6p/8/8/8/8/P6P/R3K2R b KQkq - 0 1", "h8f8 a2a3 e8f7 a3a4 f7g8 a4a5"},
+	{"r3k2r/p6p/8/8/8/8/P6P/R3K2R b KQkq - 0 1", "e8c8 h2h3 c8b8 h3h4 b8c8 h4h5"},
+	{"r3k2r/p6p/8/8/8/8/P6P/R3K2R b KQkq - 0 1", "a8d8 h2h3 e8d7 h3h4 d7c8 h4h5"},
 }
 
 func genTurochamp(o *Out, r *rand.Rand, thorough bool) {
@@ -592,6 +601,9 @@ func genTurochamp(o *Out, r *rand.Rand, thorough bool) {
 				moves = append(moves, "m:"+moveUci(m))
 			}
 			emit(start, moves, "game-from-start")
+			if i%3 == 0 { // the same diagram without its history (same hash, other castled flags / last moves)
+				emit(finalFEN(start, moves), nil, "bare-diagram")
+			}
 			continue
 		case 1: // squeezed positions: few men
 			for k := 0; k < 50; k++ {
@@ -610,6 +622,9 @@ func genTurochamp(o *Out, r *rand.Rand, thorough bool) {
 		}
 		start, moves, _ = randomLine(r, 14)
 		emit(start, moves, "random-line")
+		if i%4 == 0 && len(moves) > 0 {
+			emit(finalFEN(start, moves), nil, "bare-diagram")
+		}
 	}
 	o.info["turochamp_order_dependent_positionplay"] = tcStat.ppnd
 	o.info["turochamp_order_dependence_observed_on_real_code"] = tcStat.seen
